@@ -45,6 +45,7 @@ FUNCS = [  # (lean name, file, class, method, translator key, lean type)
     ("engineStart", "statemachine/engines/base.py", "BaseEngine", "start", "start", "List StStmt"),
     ("reservedNames", "statemachine/event.py", None, "_event_data_kwargs", "reserved", "List String"),
     ("injectedNames", "statemachine/event_data.py", "EventData", "extended_kwargs", "injected", "List String"),
+    ("parser", "statemachine/spec_parser.py", None, "spec_parser", "parser", "ParserScript"),
 ]
 ASYNC_DEF = {"activateAsync", "triggerAsync", "processAsync", "wrapperDunder", "execAsyncCall", "execAsyncAll"}
 
@@ -568,6 +569,160 @@ def tr_injected(fn):
     return _strlist(sorted(keys))
 
 
+def _fn(tree, name):
+    found = [n for n in tree.body if isinstance(n, ast.FunctionDef) and n.name == name]
+    if len(found) != 1:
+        raise Untranslatable(f"spec_parser: {len(found)} definitions of {name}")
+    return found[0]
+
+
+def _inner_return(fn, inner="decorated"):
+    """the single `return` of the closure `inner` defined inside `fn` (possibly one level deeper)"""
+    for node in ast.walk(fn):
+        if isinstance(node, ast.FunctionDef) and node.name == inner:
+            body = [s for s in node.body if not (isinstance(s, ast.Expr) and isinstance(s.value, ast.Constant))]
+            if len(body) != 1 or not isinstance(body[0], ast.Return):
+                raise Untranslatable(f"{fn.name}.{inner}: not a single return")
+            a = node.args
+            if not a.vararg or not a.kwarg or a.args or a.kwonlyargs:
+                raise Untranslatable(f"{fn.name}.{inner}: parameters {ast.unparse(a)}")
+            env = {a.vararg.arg: "A", a.kwarg.arg: "K"}
+            return text(body[0], env)
+    raise Untranslatable(f"{fn.name}: no closure `{inner}`")
+
+
+COMB = {
+    "return not P(*A, **K)": "notCall",
+    "return L(*A, **K) and R(*A, **K)": "andCalls",
+    "return L(*A, **K) or R(*A, **K)": "orCalls",
+    "return C": "constant",
+    "return bool(OP(L(*A, **K), R(*A, **K)))": "boolOfOp",
+}
+
+
+def _comb(tree, fname, params):
+    fn = _fn(tree, fname)
+    names = [x.arg for x in fn.args.args]
+    if len(names) != len(params):
+        raise Untranslatable(f"{fname}: parameters {names}")
+    t = _inner_return(fn)
+    for n, canon in zip(names, params):
+        t = re.sub(rf"\b{re.escape(n)}\b", canon, t)
+    if t not in COMB:
+        raise Untranslatable(f"{fname}: closure body {t!r}")
+    return COMB[t]
+
+
+def tr_parser(tree):
+    notB = _comb(tree, "custom_not", ["P"])
+    andB = _comb(tree, "custom_and", ["L", "R"])
+    orB = _comb(tree, "custom_or", ["L", "R"])
+    constB = _comb(tree, "build_constant", ["C"])
+    # the comparator: build_custom_operator(operator) -> custom_comparator(left, right) -> decorated
+    bco = _fn(tree, "build_custom_operator")
+    inner = [n for n in bco.body if isinstance(n, ast.FunctionDef)]
+    if len(inner) != 1 or [x.arg for x in bco.args.args] != ["operator"] or len(inner[0].args.args) != 2:
+        raise Untranslatable("build_custom_operator: shape")
+    l, r = [x.arg for x in inner[0].args.args]
+    t = _inner_return(inner[0])
+    t = re.sub(rf"\b{l}\b", "L", t)
+    t = re.sub(rf"\b{r}\b", "R", t)
+    t = re.sub(r"\boperator\b", "OP", t)
+    if t not in COMB:
+        raise Untranslatable(f"custom_comparator: closure body {t!r}")
+    cmpB = COMB[t]
+    # build_expression: the isinstance chain
+    be = _fn(tree, "build_expression")
+    if [x.arg for x in be.args.args] != ["node", "variable_hook", "operator_mapping"]:
+        raise Untranslatable("build_expression: parameters")
+    body = [s for s in be.body if not (isinstance(s, ast.Expr) and isinstance(s.value, ast.Constant))]
+    if len(body) != 1 or not isinstance(body[0], ast.If):
+        raise Untranslatable("build_expression: not one if/elif chain")
+    REC = "build_expression({}, variable_hook, operator_mapping)"
+    known = {
+        ("isinstance(node, ast.BoolOp)",
+         "operator_fn = operator_mapping[type(node.op)]\n"
+         f"left_expr = {REC.format('node.values[0]')}\n"
+         "for right in node.values[1:]:\n"
+         f"    right_expr = {REC.format('right')}\n"
+         "    left_expr = operator_fn(left_expr, right_expr)\n"
+         "return left_expr"): "boolOpFoldLeft",
+        ("isinstance(node, ast.Compare)",
+         "expressions = []\n"
+         f"left_expr = {REC.format('node.left')}\n"
+         "for right_op, right in zip(node.ops, node.comparators):\n"
+         f"    right_expr = {REC.format('right')}\n"
+         "    operator_fn = operator_mapping[type(right_op)]\n"
+         "    expression = operator_fn(left_expr, right_expr)\n"
+         "    left_expr = right_expr\n"
+         "    expressions.append(expression)\n"
+         "return reduce(custom_and, expressions)"): "compareLinksAnd",
+        ("isinstance(node, ast.UnaryOp) and isinstance(node.op, ast.Not)",
+         f"operand_expr = {REC.format('node.operand')}\n"
+         "return operator_mapping[type(node.op)](operand_expr)"): "unaryNot",
+        ("isinstance(node, ast.Name)", "return variable_hook(node.id)"): "name",
+        ("isinstance(node, ast.Constant)", "return build_constant(node.value)"): "constant",
+        ("hasattr(ast, 'NameConstant') and isinstance(node, ast.NameConstant)", "return build_constant(node.value)"): "legacyConstant",
+        ("hasattr(ast, 'Str') and isinstance(node, ast.Str)", "return build_constant(node.s)"): "legacyConstant",
+        ("hasattr(ast, 'Num') and isinstance(node, ast.Num)", "return build_constant(node.n)"): "legacyConstant",
+    }
+    branches = []
+    node = body[0]
+    while True:
+        key = (ast.unparse(node.test), "\n".join(ast.unparse(x) for x in node.body))
+        if key not in known:
+            raise Untranslatable(f"build_expression: branch at line {node.lineno} not recognised: {key[0]!r}")
+        branches.append(known[key])
+        if len(node.orelse) == 1 and isinstance(node.orelse[0], ast.If):
+            node = node.orelse[0]
+            continue
+        tail = "\n".join(ast.unparse(x) for x in node.orelse)
+        if not re.match(r"^raise ValueError\(.*\)$", tail, flags=re.S):
+            raise Untranslatable(f"build_expression: final else: {tail!r}")
+        branches.append("unsupported")
+        break
+    # operator_mapping
+    mapping = None
+    repl = None
+    for n in tree.body:
+        if isinstance(n, ast.Assign) and len(n.targets) == 1 and isinstance(n.targets[0], ast.Name):
+            if n.targets[0].id == "operator_mapping" and isinstance(n.value, ast.Dict):
+                mapping = sorted((ast.unparse(k), ast.unparse(v)) for k, v in zip(n.value.keys, n.value.values))
+            if n.targets[0].id == "replacements" and isinstance(n.value, ast.Dict):
+                repl = sorted((k.value, v.value) for k, v in zip(n.value.keys, n.value.values)
+                              if isinstance(k, ast.Constant) and isinstance(v, ast.Constant))
+    if mapping is None or repl is None:
+        raise Untranslatable("operator_mapping / replacements not found")
+    # parse_boolean_expr
+    pb = _fn(tree, "parse_boolean_expr")
+    if [x.arg for x in pb.args.args] != ["expr", "variable_hook", "operator_mapping"]:
+        raise Untranslatable("parse_boolean_expr: parameters")
+    Q = {
+        "if expr.strip() == '':\n    raise SyntaxError('Empty expression')": "rejectBlank",
+        "if expr.isidentifier() and (not iskeyword(expr)):\n    return variable_hook(expr)": "fastPathName",
+        "expr = replace_operators(expr)": "replaceOperators",
+        "tree = ast.parse(expr, mode='eval')": "parseEval",
+        "return build_expression(tree.body, variable_hook, operator_mapping)": "build",
+    }
+    parse = []
+    for st in pb.body:
+        if isinstance(st, ast.Expr) and isinstance(st.value, ast.Constant):
+            continue
+        t = ast.unparse(st)
+        if t not in Q:
+            raise Untranslatable(f"parse_boolean_expr: statement at line {st.lineno}: {t!r}")
+        parse.append(Q[t])
+
+    def pairs(xs):
+        return "[" + ", ".join(f'("{a}", "{b}")' for a, b in xs) + "]"
+    return ("{\n"
+            f"  notB := .{notB}, andB := .{andB}, orB := .{orB}, constB := .{constB}, cmpB := .{cmpB},\n"
+            f"  branches := [{', '.join('.' + b for b in branches)}],\n"
+            f"  mapping := {pairs(mapping)},\n"
+            f"  parse := [{', '.join('.' + q for q in parse)}],\n"
+            f"  replacements := {pairs(repl)} }}")
+
+
 TRANSLATORS = {"eventcall": tr_eventcall, "send": tr_send, "start": tr_start, "injected": tr_injected,
                "activate": tr_activate, "trigger": tr_trigger, "process": tr_process, "wrapper": tr_wrapper,
                "executor": tr_executor}
@@ -581,6 +736,9 @@ def translate(repo):
             fn = method(repo, rel, cls, meth)
             if key == "reserved":
                 res[name] = (ty, tr_reserved(fn), None)
+                continue
+            if key == "parser":
+                res[name] = (ty, tr_parser(fn), None)
                 continue
             if key == "injected":
                 if [ast.unparse(d) for d in fn.decorator_list] != ["property"]:
@@ -611,7 +769,7 @@ def expected_terms():
     """the scripts committed in Expected.lean, by name (text between `def name : T := ` and the blank line)"""
     src = open(EXPECTED).read()
     out = {}
-    for m in re.finditer(r"^def (\w+) : ([^\n]*?) := (\[.*?\])\n\n", src, flags=re.S | re.M):
+    for m in re.finditer(r"^def (\w+) : ([^\n]*?) := ((?:\[|\{).*?(?:\]|\}))\n\n", src, flags=re.S | re.M):
         out[m.group(1)] = (m.group(2), m.group(3))
     return out
 
